@@ -67,6 +67,13 @@ fn run(name: &str, props: &str, thorough: bool, seed: u64, ctx: &Ctx) {
             for pre in ["pkg:t/n?k=", "pkg:t/n?", "pkg:t/n#", "pkg:t/n@", "pkg:t/a/", "pkg:maven/", "pkg:pypi/a/", "pkg:t/n?checksum="] {
                 for_all_token_strings(pre, n2, &|s| checks::check_string(ctx, s, props));
             }
+            // fifteenth seeding round: checksum labels that coincide under Unicode lower-casing but not under ASCII lower-casing (or
+            // the other way round), the scheme in other letter cases, white space around the whole string
+            for s in ["pkg:t/n?checksum=%C3%89x:ab,%C3%A9x:cd", "pkg:npm/n?checksum=%C3%A9x:ab,%C3%89x:cd", "pkg:t/n?checksum=%C7%85:00,%C7%86:11",
+                      "pkg:t/n?checksum=%C3%89x:AB", "pkg:t/n?checksum=%CE%91%CE%A3:00,%CE%B1%CF%83:11", "pkg:t/n?checksum=%C4%B0:00,i%CC%87:11",
+                      "PKG:t/n", "Pkg:npm/%40s/n@1", "pkG:t/n?k=v", "PKG", "pk:t/n", " pkg:t/n", "pkg:t/n ", "pkg:t/n#s ", "pkg:t/n#docs/read%20me%20", "pkg:t/n?k=v%20", "pkg:t/n\n"] {
+                checks::check_string(ctx, s, props);
+            }
         },
         // SCALE: one component (or one count) grown across the usual implementation thresholds, same per-string oracle as `tokens`
         "scale" => for_all_scaled_strings(thorough, &|s| checks::check_string(ctx, s, props)),
